@@ -352,6 +352,11 @@ func C12(tier rt.Tier) int {
 			}
 		}
 	}
+	tasks <- func() {
+		n := combExports(run.violate)
+		atomic.AddInt64(&run.cases, int64(n))
+		atomic.AddInt64(&run.seqs, int64(3*n))
+	}
 	close(tasks)
 	wg.Wait()
 	nd := 0
